@@ -510,6 +510,26 @@ theorem saveVersion_cases (H : Bytes → Bytes) (s : St) :
       | some k => simp [hk]
       | none => simp [hk]
 
+/-- `SaveVersion` of a new version, as one equation -/
+theorem saveVersion_new_eq (H : Bytes → Bytes) (s : St)
+    (hex : (({ s with ivSet := false } : St).versionExists s.workingVersion).1 = false) :
+    (s.saveVersion H).2 =
+      { (({ s with ivSet := false } : St).versionExists s.workingVersion).2 with
+        db := (({ s with ivSet := false } : St).versionExists s.workingVersion).2.batch.setRoot s.workingVersion s.savedRoot,
+        pend := none, latest := s.workingVersion, version := s.workingVersion,
+        root := s.savedRoot, lsRoot := s.savedRoot, lsVersion := s.workingVersion } := by
+  have hsm := versionExists_same { s with ivSet := false } s.workingVersion
+  obtain ⟨h1, h2, h3, h4, h5, h6, h7, h8⟩ := hsm
+  simp only at h1 h2 h3 h4 h5 h6 h7 h8
+  unfold saveVersion
+  simp only [hex, Bool.false_eq_true, if_false, commit, savedRoot, h3]
+  cases hr : s.root with
+  | none => simp [St.batch]
+  | some r =>
+    cases hk : r.nk with
+    | some k => simp [hk, St.batch]
+    | none => simp [hk, St.batch]
+
 /-- where the working tree of a `LoadVersion` comes from: it is left alone (all the
 error cases and the empty database), or it is the root the database holds for the
 version that was loaded — which the tree reports as existing -/
